@@ -1003,7 +1003,7 @@ pub fn check_replies(out: &ConnOutcome, plan: &Plan, read_upto: usize, exact: bo
 }
 
 pub const F_TRANSPORT: &[&str] = &["short_read", "read_pending_nodata", "read_pending_withdata", "short_write", "write_pending"];
-pub const F_FLUSH: &[&str] = &["flush_pending"];
+pub const F_FLUSH: &[&str] = &["flush_pending", "spurious_child_poll"];
 pub const F_SPURIOUS: &[&str] = &["spurious_poll"];
 pub const F_INJECT: &[&str] = &["read_error", "eof_injected", "write_error", "zero_write"];
 pub const P_BASE: &[&str] = &["read_filled_buffer", "write_cut_in_header", "write_cut_at_seam", "write_cut_in_padding", "requests_2plus", "buffer_24"];
